@@ -19,3 +19,6 @@ pub mod inventory;
 pub mod probe;
 pub mod irlayout;
 pub mod cgraph;
+pub mod allowmodel;
+pub mod allowgen;
+pub mod leafinv;
